@@ -710,7 +710,7 @@ impl Property for C02 {
         vec!["mtimes of workload and script writes come from the simulator's logical clock (one tick per write)", "race-free layouts: a file is written by at most one target"]
     }
     fn generate(&self, rng: &mut Rng, _case: u64) -> Scenario {
-        gen_history(rng, &HistOpts { io: IoOpts::default(), max_invocations: 5, edit_pct: 85, touch_only: false, vary_entry: false, clean_pct: 5, fail_pct: 8, corrupt_pct: 8, io_fault_pct: 12 })
+        gen_history(rng, &HistOpts { io: IoOpts { own_output_inside_input_pct: 12, ..IoOpts::default() }, max_invocations: 5, edit_pct: 85, touch_only: false, vary_entry: false, clean_pct: 5, fail_pct: 8, corrupt_pct: 8, io_fault_pct: 12 })
     }
     fn evaluate(&self, sc: &Scenario, root: &Path, stats: &mut Stats) -> Option<Violation> {
         let v = eval_history(sc, root, stats, Some(Which::Sound), any_target, None, nontrivial_decision);
@@ -736,7 +736,7 @@ impl Property for C03 {
         "one case = 1-3 generated projects (shared resources, identical command text and identical relative paths in different project directories, X.output across projects) and a history of 2-5 invocations over an untouched tree (different requested sets and spellings; the only edits are touch-only, content identical). Oracle: a target that declares inputs, has a definite model record and whose declared resources are content-equal to that record must not have its script started; a target without inputs must never be skipped. distinct_nontrivial = distinct order hashes among invocations in which a target with a model record was evaluated"
     }
     fn generate(&self, rng: &mut Rng, _case: u64) -> Scenario {
-        gen_history(rng, &HistOpts { io: IoOpts { multi_project_pct: 60, max_targets: 6, cmd_pct: 35, cmd_output_pct: 0 }, max_invocations: 4, edit_pct: 40, touch_only: true, vary_entry: false, clean_pct: 0, fail_pct: 18, corrupt_pct: 0, io_fault_pct: 0 })
+        gen_history(rng, &HistOpts { io: IoOpts { multi_project_pct: 60, max_targets: 6, cmd_pct: 35, cmd_output_pct: 0, own_output_inside_input_pct: 12 }, max_invocations: 4, edit_pct: 40, touch_only: true, vary_entry: false, clean_pct: 0, fail_pct: 18, corrupt_pct: 0, io_fault_pct: 0 })
     }
     fn evaluate(&self, sc: &Scenario, root: &Path, stats: &mut Stats) -> Option<Violation> {
         eval_history(sc, root, stats, Some(Which::Complete), any_target, None, nontrivial_decision)
@@ -769,7 +769,7 @@ impl Property for C13 {
             // building) must end with the consumer built from the producer's final outputs
             return super::watch::gen_watch(rng, &super::watch::WatchOpts { inside_build_pct: 60, io_only: true, ..Default::default() });
         }
-        gen_history(rng, &HistOpts { io: IoOpts { multi_project_pct: 70, max_targets: 6, cmd_pct: 35, cmd_output_pct: 35 }, max_invocations: 4, edit_pct: 70, touch_only: false, vary_entry: false, clean_pct: 0, fail_pct: 0, corrupt_pct: 0, io_fault_pct: 0 })
+        gen_history(rng, &HistOpts { io: IoOpts { multi_project_pct: 70, max_targets: 6, cmd_pct: 35, cmd_output_pct: 35, own_output_inside_input_pct: 0 }, max_invocations: 4, edit_pct: 70, touch_only: false, vary_entry: false, clean_pct: 0, fail_pct: 0, corrupt_pct: 0, io_fault_pct: 0 })
     }
     fn evaluate(&self, sc: &Scenario, root: &Path, stats: &mut Stats) -> Option<Violation> {
         if sc.label.starts_with("watch-") {
@@ -798,7 +798,7 @@ impl Property for C18 {
         "one case = 2-3 projects + a history of 2-5 invocations with different requested targets, different entry projects (-p the root or an imported project's own directory), --clean T for some targets, failing other targets, interleaved with edits. Oracle (both directions): each target's decision equals the model's decision computed from that target's own declared resources and its own last successful completion only. distinct_nontrivial = distinct order hashes among invocations where a target with a model record was evaluated"
     }
     fn generate(&self, rng: &mut Rng, _case: u64) -> Scenario {
-        gen_history(rng, &HistOpts { io: IoOpts { multi_project_pct: 85, max_targets: 6, cmd_pct: 20, cmd_output_pct: 0 }, max_invocations: 5, edit_pct: 50, touch_only: false, vary_entry: true, clean_pct: 20, fail_pct: 20, corrupt_pct: 10, io_fault_pct: 0 })
+        gen_history(rng, &HistOpts { io: IoOpts { multi_project_pct: 85, max_targets: 6, cmd_pct: 20, cmd_output_pct: 0, own_output_inside_input_pct: 12 }, max_invocations: 5, edit_pct: 50, touch_only: false, vary_entry: true, clean_pct: 20, fail_pct: 20, corrupt_pct: 10, io_fault_pct: 0 })
     }
     fn evaluate(&self, sc: &Scenario, root: &Path, stats: &mut Stats) -> Option<Violation> {
         eval_history(sc, root, stats, Some(Which::Both), any_target, None, nontrivial_decision)
@@ -1049,7 +1049,7 @@ impl Property for C12 {
         vec!["a declared output path that is itself a symbolic link: cleaning removes the link only (what std's remove_file / remove_dir_all do with a link)"]
     }
     fn generate(&self, rng: &mut Rng, _case: u64) -> Scenario {
-        let mut sc = gen_history(rng, &HistOpts { io: IoOpts { multi_project_pct: 50, max_targets: 5, cmd_pct: 10, cmd_output_pct: 0 }, max_invocations: 4, edit_pct: 30, touch_only: false, vary_entry: false, clean_pct: 70, fail_pct: 0, corrupt_pct: 0, io_fault_pct: 0 });
+        let mut sc = gen_history(rng, &HistOpts { io: IoOpts { multi_project_pct: 50, max_targets: 5, cmd_pct: 10, cmd_output_pct: 0, own_output_inside_input_pct: 0 }, max_invocations: 4, edit_pct: 30, touch_only: false, vary_entry: false, clean_pct: 70, fail_pct: 0, corrupt_pct: 0, io_fault_pct: 0 });
         // decorate output locations
         let mut extra = vec![];
         for p in &sc.projects {
@@ -1158,14 +1158,20 @@ impl Property for C12 {
                     let base = t.writes[0].trim_end_matches(".out").to_string();
                     let link = format!("{}.latest", base);
                     let name = base.rsplit('/').next().unwrap_or("x").to_string();
+                    let mut link_ext = None;
                     if rng.chance(50) {
                         link_files.push(FileSpec { path: format!("{}/store/{}-latest.txt", p.dir, name), kind: FileKind::File("kept elsewhere\n".into()) });
                         link_files.push(FileSpec { path: format!("{}/{}", p.dir, link), kind: FileKind::Symlink(format!("../store/{}-latest.txt", name)) });
                     } else {
+                        // half of the directory links are declared with a filter that matches what
+                        // lies behind the link: still nothing behind it may go
+                        if rng.chance(50) {
+                            link_ext = Some(vec!["txt".to_string()]);
+                        }
                         link_files.push(FileSpec { path: format!("{}/store/{}-latest/inner.txt", p.dir, name), kind: FileKind::File("kept elsewhere, in a directory\n".into()) });
                         link_files.push(FileSpec { path: format!("{}/{}", p.dir, link), kind: FileKind::Symlink(format!("../store/{}-latest", name)) });
                     }
-                    t.output.push(Res::Paths { paths: vec![link], extensions: None });
+                    t.output.push(Res::Paths { paths: vec![link], extensions: link_ext });
                 }
             }
         }
